@@ -24,6 +24,8 @@ def build(tier):
             for p in (pats_ct if (not quick or L == 4) else pats_ct[:3]):
                 obs.append(ob(cmd, p, L, timeout=t))
         for p in (pats_at if (not quick or L == 4) else pats_at[:2]):
+            if L >= 10 and sum(1 for x in p if x in ("n", "x")) > 3:
+                continue          # four pieces of 10 symbolic characters each did not finish in 1800 s (stated, not claimed)
             obs.append(ob("add_test", p, L, timeout=t))
     obs.append(ob("ct_add_test", ["NAME", "n", "x"], 2, documented=False, timeout=t))
     obs.append(ob("add_test", ["NAME", "n", "x"], 2, documented=False, timeout=t))
